@@ -57,7 +57,7 @@ def build(config, tier):
         A = ("self", "mk::<%s>()" % N)
         B = ("rhs", "mk::<%s>()" % N)
         la = lambda v, i: "%s.to_array()[%d]" % (v, i)
-        tr = "quick" if (T.simd or t == "f32") else "thorough"
+        tr = "quick"  # f64 twins included in the quick tier since round 2 of the seeded changes (DVec3::reject_from was missed while they were thorough-only)
         stub0 = ["sse"]
         obs.extend(core.tree_obs("%s_dot" % pre, PROP, "let a = mk::<%s>(); let b = mk::<%s>(); let r = a.dot(b);" % (N, N), [("r", ["%s * %s" % (la("a", i), la("b", i)) for i in range(n)])], w,
                                  fn="%s::dot" % N, tier=tr, desc="%s::dot == sum of the %d single-rounded lane products (any association order), full domain" % (N, n)))
